@@ -22,9 +22,9 @@ static char* sym_string(unsigned n, unsigned* len_out){          /* exactly size
   s[n] = 0; if (len_out) *len_out = n; vr_register_string(s, n); return s;
 }
 static const unsigned PKL[3] = {PKLS}, PVL[3] = {PVLS};            /* lengths of the pre-state keys / values */
-static int streq(const char* a, const char* b){ unsigned i = 0; for (; i < 16; i++) { if (a[i] != b[i]) return 0; if (!a[i]) return 1; } return 1; }
-static unsigned slen(const char* a){ unsigned i = 0; while (i < 80 && a[i]) i++; return i; }
-static int prefix(const char* p, unsigned n, const char* k){ for (unsigned i = 0; i < n; i++) if (k[i] != p[i]) return 0; return 1; }
+/* comparisons use the concrete lengths: a loop that may run past a terminator would read out of bounds symbolically */
+static int streqn(const char* a, unsigned la, const char* b, unsigned lb){ if (la != lb) return 0; for (unsigned i = 0; i < la; i++) if (a[i] != b[i]) return 0; return a[la] == 0 && b[lb] == 0; }
+static int prefix(const char* p, unsigned n, const char* k){ for (unsigned i = 0; i < n; i++) { if (k[i] != p[i]) return 0; } return 1; }   /* p has no NUL before n, so a shorter k differs at its terminator */
 static int reserved(const char* k){ return prefix("BITPIX", 6, k) || prefix("SIMPLE", 6, k) || prefix("TYPE", 4, k) || prefix("ORDER", 5, k) || prefix("NAXIS", 5, k) || prefix("PERIOD", 6, k) || prefix("EXTEND", 6, k) || prefix("COMMENT", 7, k); }
 char g_key[KL + 1], g_val[VL + 1];
 
@@ -40,8 +40,13 @@ void harness(void){
   int live0 = vm_live_blocks();
   /* the operation's key */
   const unsigned kl = KL;                                    /* lengths are concrete per instance (the grid enumerates them), characters symbolic */
+#ifdef HIT
+  /* the operation's key is (character for character) the key of entry 0: the lookup is decided by symex */
+  for (unsigned i = 0; i < KL; i++) g_key[i] = okey[0][i]; g_key[kl] = 0; vr_register_string(g_key, kl);
+#else
   for (unsigned i = 0; i < KL; i++) g_key[i] = alpha(); g_key[kl] = 0; vr_register_string(g_key, kl);
-  int present = -1; for (int i = NAUX - 1; i >= 0; i--) if (streq(okey[i], g_key)) present = i;      /* first match */
+#endif
+  int present = -1; for (int i = NAUX - 1; i >= 0; i--) if (streqn(okey[i], PKL[i], g_key, kl)) present = i;      /* first match */
 #if defined(OP_GET)
   char* v = ir_w_get_aux_value((char*)&t, g_key);
   assert(!exc_pending);
@@ -66,6 +71,7 @@ void harness(void){
   uint32_t r = ir_w_write_key_int((char*)&t, g_key, (uint32_t)iv);
   unsigned vl = 0;
 #endif
+#ifndef NOPOST
   /* classes that must be rejected */
   int has_lower = 0, has_eq = 0, badshort = 0;
   for (unsigned i = 0; i < kl; i++) { char c = g_key[i]; if (c >= 'a' && c <= 'z') has_lower = 1; if (c == '=') has_eq = 1; if (!((c >= 'A' && c <= 'Z') || (c >= '0' && c <= '9'))) badshort = 1; }
@@ -86,22 +92,30 @@ void harness(void){
     char* nv = oent[present][1];
     assert(nv != oval[present] && vm_is_live(nv) && !vm_is_live(oval[present]));
 #ifdef OP_WRITE_STR
-    assert(streq(nv, g_val)); assert(vm_block_size(nv) == vl + 1);
+    assert(vm_block_size(nv) == vl + 1); assert(streqn(nv, vl, g_val, vl));
 #endif
     assert(vm_live_blocks() == live0);
   } else {                                                     /* append at the end, insertion order kept */
     assert(r != 0 && t.naux == NAUX + 1);
     for (unsigned i = 0; i < NAUX; i++) { assert(t.aux[i] == oent[i] && oent[i][0] == okey[i] && oent[i][1] == oval[i]); }
     char** ne = t.aux[NAUX];
-    assert(streq(ne[0], g_key)); assert(vm_block_size(ne[0]) == kl + 1);
+    assert(vm_block_size(ne[0]) == kl + 1); assert(streqn(ne[0], kl, g_key, kl));
 #ifdef OP_WRITE_STR
-    assert(streq(ne[1], g_val)); assert(vm_block_size(ne[1]) == vl + 1);
+    assert(vm_block_size(ne[1]) == vl + 1); assert(streqn(ne[1], vl, g_val, vl));
 #endif
     assert(vm_block_size(t.aux) == (NAUX + 1) * sizeof(char**));
     assert(vm_live_blocks() == live0 + 3 + (NAUX ? 0 : 1));
   }
+#endif /* NOPOST */
 #ifdef OP_WRITE_INT
   if (!exc_pending) {                                          /* typed read returns the value denoted by the stored string: exactly the integer written */
+    { char* stored = present >= 0 ? oent[present][1] : t.aux[NAUX][1];           /* its length is known: DIGITS (+ sign) */
+#ifdef NEGATIVE
+      vr_register_string(stored, DIGITS + 1);
+#else
+      vr_register_string(stored, DIGITS);
+#endif
+    }
     int32_t back = 12345; uint32_t ok = ir_w_read_key_int((char*)&t, g_key, (char*)&back);
     assert(!exc_pending && ok && back == iv);
   }
@@ -112,8 +126,8 @@ void harness(void){
   assert(!exc_pending && vm_live_blocks() == live0);
   if (present < 0) assert(!ok);
   else { /* a stored string of decimal digits (optionally signed) denotes that integer */
-    const char* s = oval[present]; unsigned n = slen(s); int alldig = n > 0; int32_t val = 0;
-    for (unsigned i = 0; i < n && i < SL; i++) { if (s[i] < '0' || s[i] > '9') alldig = 0; else val = val * 10 + (s[i] - '0'); }
+    const char* s = oval[present]; unsigned n = PVL[present]; int alldig = n > 0; int32_t val = 0;
+    for (unsigned i = 0; i < n; i++) { if (s[i] < '0' || s[i] > '9') alldig = 0; else val = val * 10 + (s[i] - '0'); }
     if (alldig) assert(ok && out == val);
     if (n == 0) assert(!ok);
   }
